@@ -268,7 +268,7 @@ def classify(ctx, u, f, s, keys, fold):
         F = ctx.facts(f)
         for d in walk(body):
             if d.get('kind') == 'VarDecl' and kids(d) and _innermost_loop(d) is s and \
-                    any(y.get('kind') in ('CallExpr', 'CXXMemberCallExpr') for y in walk(kids(d)[-1])):
+                    any(y.get('kind') in ('CallExpr', 'CXXMemberCallExpr', 'CXXOperatorCallExpr') for y in walk(kids(d)[-1])):
                 vk = '%s#%s' % (d.get('name'), d.get('id'))
                 if not _step_on_every_iteration(ctx, f, s, [(vk, d)]):
                     continue
